@@ -378,7 +378,7 @@ impl Check for C02Check {
         v.push(Phase::random("random-deep", tier.pick(150_000, 4_000_000), 96).with_min_tape(16).with_chunk(2048));
         {
             let b = context_ops().len() as u64;
-            v.push(Phase::exhaustive("bracket-contexts", bracket_contexts().len() as u64 * b * b).with_chunk(512));
+            v.push(Phase::exhaustive("bracket-contexts", bracket_contexts().len() as u64 * b * b * 4).with_chunk(512));
         }
         v
     }
@@ -407,10 +407,13 @@ impl Check for C02Check {
                 let ops = context_ops();
                 let b = ops.len() as u64;
                 let ctxs = bracket_contexts();
+                // the body's first operand plain, led by a prefix operator, or wrapped in a group / a nested expression
+                let first = ["a", "-- a", "( a )", "{ a }"][(*i % 4) as usize];
+                let i = &(*i / 4);
                 let context = &ctxs[(*i / (b * b)) as usize];
                 let (o1, o2) = (ops[((*i / b) % b) as usize], ops[(*i % b) as usize]);
                 let join = |l: &str, o: &str, r: &str| if o == " " { format!("{} {}", l, r) } else if o == "\n\n" { format!("{}\n\n{}", l, r) } else { format!("{} {} {}", l, o, r) };
-                let body = join(&join("a", o1, "b"), o2, "c");
+                let body = join(&join(first, o1, "b"), o2, "c");
                 let has_separator = [o1, o2].iter().any(|o| *o == ";" || *o == "\n\n");
                 if has_separator && context.ends_with('(') {
                     ctx.class("separator-directly-in-a-plain-group-skipped");
